@@ -23,6 +23,20 @@ CLAIMS = {
     ),
 }
 
+CLAIMS["C02"] = (
+    "TLA+ denotation with predicates (XSem.tla) explored by TLC over documents x predicate pools (XPools.tla: host axis x "
+    "predicate axis x atom form, nesting depth 2, and/or/not, two predicates, parenthesised paths); replay on the engine",
+    "Bounded-exhaustive model checking of predicate semantics: every candidate sequence arising in all small documents and "
+    "the catalogue (several candidates sharing ancestors, siblings, followers) is replayed and compared with the denotation, "
+    "which exposes state leaking from one candidate to the next.",
+    CLAIMS["C01"][2], "DESIGN.md 4/C02")
+CLAIMS["C03"] = (
+    "TLA+ proximity-position semantics (XSem.tla KeepFrom/PredTrue) explored by TLC over all element documents up to 5-6 "
+    "nodes x positional predicate pools (XPools.tla PoolC03*); replay on the engine",
+    "Bounded-exhaustive model checking of positional predicates on child steps in 8 host positions, followed by boolean "
+    "predicates, and of (path)[n]; parents with different fan-out are enumerated exhaustively.",
+    CLAIMS["C01"][2], "DESIGN.md 4/C03")
+
 NOT_YET = "check not built yet in this round (see DESIGN.md section 9 for the construction order)"
 
 
